@@ -60,7 +60,11 @@ type Case struct {
 	// that would serve the last bytes of the stream: what a reader owes for bytes it is given with its
 	// very last result before EOF is left open.
 	IgnData bool `json:"igndata,omitempty"`
-	Seed    byte `json:"seed,omitempty"`
+	// SendFail > 0 (application-side face only): while the face hands over its SendFail-th block, the
+	// application tries to send something (an engine replies from inside this callback) and the write
+	// fails -- the peer has stopped reading, say. What the peer sent before is still to be handed over.
+	SendFail int  `json:"sendfail,omitempty"`
+	Seed     byte `json:"seed,omitempty"`
 }
 
 const recvBufSize = defn.MaxNDNPacketSize * 32
@@ -117,18 +121,19 @@ var errEmptyBuffer = errors.New("verif: the reader was offered an empty buffer 1
 // script is the io.Reader: it serves stream[:end] in the chunks the case prescribes and
 // measures, for the non-triviality rule, where reads end.
 type script struct {
-	lo      *layout
-	end     int
-	off     int
-	steps   []Step
-	si      int // current step
-	sr      int // reads done in current step
-	cuts    []int
-	ci      int
-	ign     int
-	ignData bool
-	nread   int
-	empty   int
+	lo         *layout
+	end        int
+	off        int
+	steps      []Step
+	si         int // current step
+	sr         int // reads done in current step
+	cuts       []int
+	ci         int
+	ign        int
+	ignData    bool
+	failWrites bool
+	nread      int
+	empty      int
 
 	blk             int // index of the block containing off
 	endsInHeader    int
@@ -245,7 +250,12 @@ func (c scriptConn) Read(p []byte) (int, error) {
 	}
 	return n, err
 }
-func (c scriptConn) Write(p []byte) (int, error)      { return len(p), nil }
+func (c scriptConn) Write(p []byte) (int, error) {
+	if c.s.failWrites {
+		return 0, errors.New("verif: write: broken pipe")
+	}
+	return len(p), nil
+}
 func (c scriptConn) Close() error                     { return nil }
 func (c scriptConn) LocalAddr() net.Addr              { return &net.UnixAddr{Name: "verif", Net: "unix"} }
 func (c scriptConn) RemoteAddr() net.Addr             { return &net.UnixAddr{Name: "verif", Net: "unix"} }
@@ -423,8 +433,16 @@ func execApp(c Case) (res evid.Result) {
 	sink := &sinkT{lo: &lo, whole: wholeBlocks(&lo, s.end), normalised: true}
 	f := appface.VerifNewStreamFaceOnConn(scriptConn{s}, true)
 	var gotErr error
+	s.failWrites = c.SendFail > 0
+	handed, sendFailed := 0, false
 	f.SetCallback(func(r enc.ParseReader) error {
 		sink.frame(r.Range(0, r.Length()).Join())
+		handed++
+		if handed == c.SendFail {
+			if err := f.Send(enc.Wire{[]byte{0x05, 0x03, 0x01, 0x02, 0x03}}); err != nil {
+				sendFailed = true
+			}
+		}
 		return nil
 	}, func(err error) error {
 		gotErr = err
@@ -432,6 +450,9 @@ func execApp(c Case) (res evid.Result) {
 	})
 	err := watch("StreamFace.Run", func() error { f.Run(); return nil })
 	res.Classes, res.NonTrivial = classes(c, &lo, s)
+	if sendFailed {
+		res.Classes = append(res.Classes, "a-send-failed-while-blocks-were-still-to-be-handed-over")
+	}
 	switch {
 	case err != nil:
 		res.Err = err
@@ -620,6 +641,9 @@ func genCase(t *rapid.T) Case {
 	if rapid.IntRange(0, 5).Draw(t, "ignErr") == 0 {
 		c.IgnErr = rapid.IntRange(2, 50).Draw(t, "ignEvery")
 		c.IgnData = rapid.Bool().Draw(t, "ignData")
+	}
+	if rapid.IntRange(0, 3).Draw(t, "sendFail") == 0 {
+		c.SendFail = rapid.IntRange(1, 6).Draw(t, "sendFailAt")
 	}
 	return c
 }
